@@ -151,7 +151,7 @@ def chunks : List Nat → Bytes → List Bytes
   | n :: ns, s => s.take n :: chunks ns (s.drop n)
 
 theorem read_spec (prf : Bytes → Bytes → Bytes) (hLen : Nat) (hh : ∀ k m, (prf k m).length = hLen)
-    (h0 : 0 < hLen) (P S : Bytes) (c : Nat) (st : PBKDF2) (t n : Nat)
+    (_h0 : 0 < hLen) (P S : Bytes) (c : Nat) (st : PBKDF2) (t n : Nat)
     (inv : Inv prf hLen P S c st t) (hT : t + n ≤ Gen.counterMax * hLen) :
     ∃ st', st.read prf n = some (((Spec.blocks prf P S c 0 st'.blockNum).take (t + n)).drop t, st')
       ∧ Inv prf hLen P S c st' (t + n) := by
@@ -231,5 +231,61 @@ theorem reads_spec (prf : Bytes → Bytes → Bytes) (hLen : Nat) (hh : ∀ k m,
     · rw [blocks_take_eq prf hLen hh P S c st'.blockNum l (t + n) inv'.ht (by omega), List.drop_take]
       congr 1; omega
     · rw [List.drop_drop]
+
+/-- when even `0xffffffff` blocks do not suffice the loop raises OverflowError -/
+theorem readLoop_none (prf : Bytes → Bytes → Bytes) (hLen : Nat) (hh : ∀ k m, (prf k m).length = hLen)
+    (st : PBKDF2) (want : Nat) :
+    ∀ (d i size : Nat) (acc : Bytes), acc.length = size → i + d = Gen.counterMax →
+      size + d * hLen < want → readLoop prf st want i size acc = none := by
+  intro d
+  induction d with
+  | zero =>
+    intro i size acc _ hi hw
+    rw [readLoop]
+    have h1 : size < want := by omega
+    have h2 : i + 1 > Gen.counterMax ∨ i + 1 < 1 := by omega
+    simp only [h1, if_true, h2, dite_true]
+  | succ d ih =>
+    intro i size acc hacc hi hw
+    have hlen : (st.f prf (i + 1)).length = hLen := by rw [f_eq]; exact F_length prf hLen hh _ _ _ _
+    have e := add_one_mul' d hLen
+    rw [readLoop]
+    have h1 : size < want := by omega
+    have h2 : ¬ (i + 1 > Gen.counterMax ∨ i + 1 < 1) := by omega
+    simp only [h1, if_true, h2, dite_false, hlen]
+    exact ih (i + 1) (size + hLen) _ (by simp [hacc, hlen]) (by omega) (by omega)
+
+theorem ceil_mul_ge (n h : Nat) (h0 : 0 < h) : n ≤ (n + h - 1) / h * h := by
+  have h1 := Nat.div_add_mod (n + h - 1) h
+  have h2 := Nat.mod_lt (n + h - 1) h0
+  have h3 : h * ((n + h - 1) / h) = (n + h - 1) / h * h := Nat.mul_comm _ _
+  omega
+
+/-- `PBKDF2(P, S, c).read(dkLen)` is RFC 2898 PBKDF2, including the "derived key too long" refusal -/
+theorem pbkdf2Vendored_eq (prf : Bytes → Bytes → Bytes) (hLen : Nat) (hh : ∀ k m, (prf k m).length = hLen)
+    (h0 : 0 < hLen) (P S : Bytes) (c : Nat) (hc : 1 ≤ c) (dkLen : Nat) :
+    pbkdf2Vendored prf P S c dkLen = Spec.pbkdf2 prf hLen P S c dkLen := by
+  obtain ⟨st, hnew, inv⟩ := new_inv prf hLen P S c hc
+  have hmax : Gen.counterMax = 2 ^ 32 - 1 := by decide
+  unfold pbkdf2Vendored Spec.pbkdf2
+  rw [hnew]
+  by_cases hbig : dkLen > (2 ^ 32 - 1) * hLen
+  · rw [if_pos hbig]
+    have hb0 : st.blockNum = 0 := by
+      have := hnew; unfold PBKDF2.new at this
+      split at this
+      · cases this
+      · simp only [Option.some.injEq] at this; rw [← this]
+    have hbuf : st.buf = [] := by
+      have := hnew; unfold PBKDF2.new at this
+      split at this
+      · cases this
+      · simp only [Option.some.injEq] at this; rw [← this]
+    have := readLoop_none prf hLen hh st dkLen Gen.counterMax 0 0 [] rfl (by omega) (by rw [hmax]; omega)
+    simp [PBKDF2.read, hb0, hbuf, this]
+  · rw [if_neg hbig]
+    obtain ⟨st', hr, inv'⟩ := read_spec prf hLen hh h0 P S c st 0 dkLen inv (by rw [hmax]; omega)
+    simp only [hr, Option.map_some, Nat.zero_add, List.drop_zero, Option.some.injEq]
+    exact blocks_take_eq prf hLen hh P S c _ _ dkLen (by simpa using inv'.ht) (ceil_mul_ge dkLen hLen h0)
 
 end Buidl.Mnemonic
